@@ -113,7 +113,7 @@ def u_align2(pattern=(0, 1), npts=1, rot0=2, theta='free', scene=None):
     inp.update({f'm{i}{c}': P[i][k] for i in range(npts) for k, c in enumerate('xy')})
     if theta == 'free':
         inp.update(ang_inputs('th'))
-    return Unit(f'points_to_curve[{[DIRS2[d] for d in pattern]},points={npts},final rotation={theta}{",concrete scene " + str(scene) if scene is not None else ""}]', composite, lambda eng: ([], None), post, base=base, known_pos=kp, inputs=inp,
+    return Unit(f'points_to_curve[{[DIRS2[d] for d in pattern]},points={npts},final rotation={theta}{",concrete scene " + str(scene) + ", final translation along axes " + str(free_axes) if scene is not None else ""}]', composite, lambda eng: ([], None), post, base=base, known_pos=kp, inputs=inp,
                 observers={'minimize': lm_minimize, 'was_successful': was_successful, 'LevenbergMarquardt::new': lambda eng, callee, args: Opaque('LevenbergMarquardt')}, const_generics={'D': 2},
                 replay=('align2', lambda mm: {'pts': model_pts(mm, n, 2), 'tol': mm['tol'], 'points': [[mm[f'm{i}x'], mm[f'm{i}y']] for i in range(npts)], 'iso': T0.json(mm),
                                            'x': [mm['x0'], mm['x1'], ang(mm, 'th') if theta == 'free' else (0.0 if theta == 0 else 1.5707963267948966)]}), loop_budget=16 * n + 8 * npts + 32, max_paths=20000,
@@ -122,7 +122,7 @@ def u_align2(pattern=(0, 1), npts=1, rot0=2, theta='free', scene=None):
                              'parry Polyline projection by contract (C02)'], timeout_ms=15000)
 
 
-def u_align3(mode='ToPlane', rot0=1, rx='zero', tri=0, scene=None):
+def u_align3(mode='ToPlane', rot0=1, rx='zero', tri=0, scene=None, free_axes=(0, 1, 2)):
     """points_to_mesh on one concrete triangle, one symbolic point; final parameters: symbolic translation, rotation about x by 0 or pi/2"""
     from .c02 import TRI_V, TRI_F
     from .c14 import mesh_val
@@ -140,7 +140,8 @@ def u_align3(mode='ToPlane', rot0=1, rx='zero', tri=0, scene=None):
         sc = [{'p': ('5/2', '1/2', '3/4'), 't0': ('1/5', '-1/10', '1/10')}, {'p': ('1', '5/2', '1/2'), 't0': ('-1/10', '1/5', '0')}][scene]
         P = [rat(v) for v in sc['p']]
         T0.t = [rat(v) for v in sc['t0']]
-        base = bounded(*x, b=10)
+        base = bounded(*x, b=10) + [x[k] == 0 for k in range(3) if k not in free_axes]
+        x = [x[k] if k in free_axes else rat(0) for k in range(3)]
 
     def lm_minimize(eng, callee, args):
         problem = unref(args[1])
@@ -193,7 +194,7 @@ def u_align3(mode='ToPlane', rot0=1, rx='zero', tri=0, scene=None):
         return obs
 
     inp = {**(T0.inp if scene is None else {f'i{c}': T0.t[k] for k, c in enumerate('xyz')}), 'm0x': P[0], 'm0y': P[1], 'm0z': P[2], 'x0': x[0], 'x1': x[1], 'x2': x[2], 'lm_ok': ok}
-    return Unit(f'points_to_mesh[{mode},{T0.label()},final rx={rx},triangle {tri}{",concrete scene " + str(scene) if scene is not None else ""}]', composite, lambda eng: ([], None), post, base=base, inputs=inp, const_generics={'D': 3},
+    return Unit(f'points_to_mesh[{mode},{T0.label()},final rx={rx},triangle {tri}{",concrete scene " + str(scene) + ", final translation along axes " + str(free_axes) if scene is not None else ""}]', composite, lambda eng: ([], None), post, base=base, inputs=inp, const_generics={'D': 3},
                 observers={'minimize': lm_minimize, 'was_successful': lambda eng, callee, args: eng.branch(ok), 'LevenbergMarquardt::new': lambda eng, callee, args: Opaque('LevenbergMarquardt')},
                 replay=('align3', lambda mm: {'vertices': TRI_V, 'faces': faces, 'point': [mm['m0x'], mm['m0y'], mm['m0z']], 'iso': T0.json(mm), 'mode': mode,
                                            'x': [mm['x0'], mm['x1'], mm['x2'], 0.0 if rx == 'zero' else 1.5707963267948966, 0.0, 0.0]}), loop_budget=128, max_paths=20000,
@@ -221,7 +222,11 @@ UNITS = {
               ('u_align2', {'pattern': (0, 1), 'npts': 2, 'rot0': 2, 'theta': 0, 'scene': 1}),
               ('u_align3', {'mode': 'ToPlane', 'rot0': 1, 'rx': 'zero', 'tri': 0}), ('u_align3', {'mode': 'ToPoint', 'rot0': 0, 'rx': 'half', 'tri': 0}),
               ('u_align3', {'mode': 'ToPlane', 'rot0': 0, 'rx': 'zero', 'tri': 2, 'scene': 0}), ('u_align3', {'mode': 'ToPlane', 'rot0': 3, 'rx': 'zero', 'tri': 2, 'scene': 1}),
-              ('u_align3', {'mode': 'ToPoint', 'rot0': 0, 'rx': 'zero', 'tri': 2, 'scene': 0})],
+              ('u_align3', {'mode': 'ToPoint', 'rot0': 0, 'rx': 'zero', 'tri': 2, 'scene': 0}),
+              ('u_align3', {'mode': 'ToPlane', 'rot0': 0, 'rx': 'zero', 'tri': 2, 'scene': 0, 'free_axes': (0,)}), ('u_align3', {'mode': 'ToPlane', 'rot0': 0, 'rx': 'zero', 'tri': 2, 'scene': 1, 'free_axes': (1,)}),
+              ('u_align3', {'mode': 'ToPlane', 'rot0': 0, 'rx': 'zero', 'tri': 2, 'scene': 0, 'free_axes': (2,)}),
+              ('u_align3', {'mode': 'ToPlane', 'rot0': 0, 'rx': 'zero', 'tri': 2, 'scene': 0, 'free_axes': (1,)}), ('u_align3', {'mode': 'ToPlane', 'rot0': 0, 'rx': 'zero', 'tri': 2, 'scene': 1, 'free_axes': (0,)}),
+              ('u_align3', {'mode': 'ToPlane', 'rot0': 0, 'rx': 'zero', 'tri': 2, 'scene': 1, 'free_axes': (2,)}), ('u_align3', {'mode': 'ToPlane', 'rot0': 0, 'rx': 'zero', 'tri': 2, 'scene': 0, 'free_axes': (0, 1)})],
     'thorough': [('u_align2', {'pattern': p, 'npts': 1, 'rot0': r, 'theta': th}) for p in ((0, 1), (4, 3), (6, 0), (1, 7)) for r in (0, 2, 3) for th in ('free', 'half', 0)] +
                 [('u_align3', {'mode': m, 'rot0': r, 'rx': a, 'tri': t}) for m in ('ToPlane', 'ToPoint') for r in (0, 1, 2) for a in ('zero', 'half') for t in (0, 1)],
 }
